@@ -4,7 +4,7 @@ VIEW view
 INVARIANT Inv
 CHECK_DEADLOCK FALSE
 CONSTANTS
-  Instances = {1, 2}
+  Instances = {1, 2, 3}
   Writers = {1, 2}
   Timestamps = {1}
   Depth = 0
